@@ -309,6 +309,83 @@ func RunC18(r *sim.Run) {
 	}
 	w.Advance(40 * time.Second)
 	ld := leader()
+	// ---- freed quota is available: the pool is handed out to two hungry instances until
+	// neither grows any more, one of them dies, the survivor keeps sending the very same
+	// report: it must be given more once the dead one has been reclaimed
+	if ld != nil {
+		mif := &schemaCfg{name: "mif", limit: Lmif}
+		var live []*c18Inst
+		for _, in := range insts {
+			if !in.silent {
+				live = append(live, in)
+			}
+		}
+		if len(live) >= 2 {
+			a, v := live[0], live[1]
+			hungryRound := func(in *c18Inst) bool {
+				_ = ld.RL.Heartbeat(in.id)
+				used := in.quota.q
+				if !in.quota.known || used < 1 {
+					used = 1
+				}
+				return report(in, used)
+			}
+			stable := 0
+			for k := 0; k < 40 && stable < 3; k++ {
+				qa, qv := a.quota.q, v.quota.q
+				okA, okV := hungryRound(a), hungryRound(v)
+				w.Advance(200 * time.Millisecond)
+				if okA && okV && a.quota.q == qa && v.quota.q == qv {
+					stable++
+				} else {
+					stable = 0
+				}
+			}
+			var ids []string
+			for _, in := range live {
+				ids = append(ids, in.id)
+			}
+			if stable >= 3 && a.quota.q >= 4 && v.quota.q >= 3 {
+				// the victim dies; the survivor goes on as before
+				v.silent, v.silentAt = true, w.Now()
+				v.gw.Stop()
+				r.Fault("crash")
+				for k := 0; k < 6; k++ { // 6 s: the 1 s sweep has certainly run (time-out 3 s)
+					hungryRound(a)
+					for _, in := range live {
+						if in != v {
+							_ = ld.RL.Heartbeat(in.id)
+						}
+					}
+					w.Advance(time.Second)
+				}
+				rec, err := recordedQuotas(ld, up, ids, mif)
+				_, victimOnRecord := rec[v.id]
+				if err == nil && !victimOnRecord {
+					var liveSum int32
+					for _, q := range rec {
+						liveSum += q
+					}
+					if free := Lmif - liveSum; free >= 3 {
+						r.Checked("freed_quota_available_to_hungry_survivor")
+						before := a.quota.q
+						answered := 0
+						for k := 0; k < 4 && a.quota.q <= before; k++ {
+							if hungryRound(a) {
+								answered++
+							}
+							w.Advance(300 * time.Millisecond)
+						}
+						r.Logf("survivor %s: quota %d -> %d after %d more answered reports (the dead %s held %d; live instances hold %d of %d)", a.gw.Name, before, a.quota.q, answered, v.gw.Name, v.quota.q, liveSum, Lmif)
+						if answered >= 3 && a.quota.q <= before {
+							r.Violate("freed_quota_not_available", storeKind, "instance %s died holding quota %d and was reclaimed; the live instances hold %d of the limit %d; %s, using its whole quota of %d, kept sending the same report (%d answered after the reclamation) and was never given more: the dead instance's quota is still counted", v.gw.Name, v.quota.q, liveSum, Lmif, a.gw.Name, before, answered)
+							return
+						}
+					}
+				}
+			}
+		}
+	}
 	if ld != nil {
 		auditor := join()
 		w.Advance(3 * time.Second)
